@@ -208,7 +208,7 @@ impl HeaderCase {
         json!({
             "wrap": WRAPS[self.wrap],
             "declared": self.declared.iter().map(|(n, v)| json!([n, show(v)])).collect::<Vec<_>>(),
-            "explicit": self.explicit.iter().map(|(n, v)| json!([n, show(&String::from_utf8_lossy(v)), hex(v)])).collect::<Vec<_>>(),
+            "explicit": self.explicit.iter().map(|(n, v)| json!([n, show(&String::from_utf8_lossy(v)), format!("{} bytes, hex {}{}", v.len(), hex(&v[..v.len().min(40)]), if v.len() > 40 { "..." } else { "" })])).collect::<Vec<_>>(),
             "collision": self.coll_class,
             "declared_value_classes": self.decl_class,
         })
@@ -469,6 +469,9 @@ fn inproc_typed<T: BodyGen>(rep: &mut Report, rng: &mut Rng, ctx: Value) {
     ctx["value_class"] = json!(vclass);
     ctx["value"] = want.shown();
     ctx["headers"] = hc.json();
+    if matches!(want, WantBody::Exact(_)) {
+        rep.count("bodies-with-128-bit-integers", 1);
+    }
     let exp = Expect { kind, status, body: Some(want), headers: hc.expected() };
     match k {
         0 => run_coded(rep, HttpResponseOk(value), &hc, &exp, class, &ctx),
@@ -920,6 +923,9 @@ pub fn live_client(rep: &mut Report, addr: std::net::SocketAddr, seed: u64, shar
             ctx["type"] = json!(t.name);
             ctx["value"] = want.shown();
             ctx["headers"] = hc.json();
+            if matches!(want, WantBody::Exact(_)) {
+                rep.count("bodies-with-128-bit-integers", 1);
+            }
             (
                 format!("/c12/{kind}/{}/{}", WRAPS[wrap], t.name),
                 Some(Expect { kind, status, body: Some(want), headers: hc.expected() }),
